@@ -97,7 +97,7 @@ def parse_ace_standard(line: str) -> DStr:
     re_sequence = r"(\d+)?"
     re_action = f"{space}?(permit|deny)"
     re_srcaddr = f"{space}({addr})"
-    re_log = "( .+)?"
+    re_log = "( log)?$"
 
     regex = f"^{re_sequence}{re_action}{re_srcaddr}{re_log}"
     _items = h.re_find_t(regex, line)
